@@ -100,16 +100,17 @@ func honestPool(kind rkit.Kind, n int, delta uint64) []pmsg {
 // ---------------------------------------------------------------- one case
 
 type cs struct {
-	run   *hx.Run
-	kind  rkit.Kind
-	n     int
-	ks    *tu.TestKeySet
-	v     *validator.Validator
-	env   *rkit.Env
-	km    *rkit.RecKM
-	bn    *rkit.RecBeacon
-	net   *rkit.RecNet
-	share *spectypes.Share
+	run    *hx.Run
+	kind   rkit.Kind
+	n      int
+	ks     *tu.TestKeySet
+	v      *validator.Validator
+	env    *rkit.Env
+	km     *rkit.RecKM
+	bn     *rkit.RecBeacon
+	net    *rkit.RecNet
+	share  *spectypes.Share
+	cancel context.CancelFunc
 
 	seenSigns, seenBc, seenSubs int
 	rootIDs                     map[[32]byte]int
@@ -191,6 +192,7 @@ func newCase(run *hx.Run, kindName string, n int) *cs {
 	}
 	c.share = c.env.Share
 	ctx, cancel := context.WithCancel(context.Background())
+	c.cancel = cancel
 	c.v = validator.NewValidator(ctx, cancel, validator.Options{
 		Network: c.net, Beacon: c.bn, Storage: qbfttesting.TestingStores(nop), SSVShare: &ssvtypes.SSVShare{Share: *c.share},
 		Signer: c.km, DutyRunners: runners,
@@ -455,7 +457,7 @@ func (c *cs) deliver(m *spectypes.SSVMessage) (string, string) {
 			vfacts = c.valFacts(value)
 		}
 		op := fmt.Sprintf("cons id=%d h=%d dec=%d valid=%d %s idec=%d", b2i(idOk), b.Message.Height, b2i(isDec), b2i(valid), vfacts, b2i(idec))
-			oc := opCtx{kind: "cons", consH: int64(b.Message.Height), preState: pre}
+		oc := opCtx{kind: "cons", consH: int64(b.Message.Height), preState: pre}
 		if idOk && ((isDec && valid) || idec) {
 			oc.consValue, oc.consCert = value, true
 		}
@@ -476,7 +478,7 @@ func (c *cs) deliver(m *spectypes.SSVMessage) (string, string) {
 			kind, extra = "post", ""
 		}
 		op := fmt.Sprintf("%s s=%d slot=%d sh=%s%s", kind, b.Signer, b.Message.Slot, sh, extra)
-			err := c.v.ProcessMessage(nop, d)
+		err := c.v.ProcessMessage(nop, d)
 		return op, c.observe(err, true, opCtx{kind: kind, preState: pre})
 	}
 	return "", ""
@@ -551,8 +553,8 @@ func (c *cs) variant(v []byte, which int) []byte {
 // ---------------------------------------------------------------- interpreter (generation and replay)
 
 type state struct {
-	run *hx.Run
-	cur *cs
+	run  *hx.Run
+	cur  *cs
 	scen string // the scenario line being executed: emitted op lines are "<scenario line> | <abstract op for the model>"
 	// replay bookkeeping: messages by their canonical op line are not reconstructible, so replay files hold scenario ops
 }
@@ -593,10 +595,11 @@ func (s *state) emit(op, obs string) {
 }
 
 // scenario ops (what replay files and the corpus contain):
-//   reset role=<kind> n=<n>
-//   start d=<delta>
-//   pool d=<delta> i=<index> [mut=<pk|role|ident|slot|share>]     deliver message i of the honest traffic of duty delta
-//   decided d=<delta> dh=<height offset> val=<0 own|1 other|2 invalid|3 garbage> [signers=<k>] [badcert=1]
+//
+//	reset role=<kind> n=<n>
+//	start d=<delta>
+//	pool d=<delta> i=<index> [mut=<pk|role|ident|slot|share>]     deliver message i of the honest traffic of duty delta
+//	decided d=<delta> dh=<height offset> val=<0 own|1 other|2 invalid|3 garbage> [signers=<k>] [badcert=1]
 func (s *state) scenario(line string) {
 	ws := strings.Fields(line)
 	if len(ws) == 0 {
@@ -613,6 +616,9 @@ func (s *state) scenario(line string) {
 		c := newCase(s.run, kv["role"], n)
 		if c == nil {
 			return
+		}
+		if s.cur != nil && s.cur.cancel != nil {
+			s.cur.cancel()
 		}
 		s.cur = c
 		op := fmt.Sprintf("reset role=%s n=%d", kv["role"], n)
